@@ -32,7 +32,23 @@ enum Init {
     GlobalGet(usize), // handle of an imported global
     RefFunc(usize),   // handle of a function
     RefNullFunc,
+    RefNull(usize), // index into NREFS
 }
+
+/// nullable abstract reference types a global can have (wirm type, wasmparser type, heap type name as `{:?}` lower-cased)
+const NREFS: &[(DataType, wasmparser::RefType, &str)] = &[
+    (DataType::ExternRefNull, wasmparser::RefType::EXTERNREF, "extern"),
+    (DataType::AnyNull, wasmparser::RefType::ANYREF, "any"),
+    (DataType::EqNull, wasmparser::RefType::EQREF, "eq"),
+    (DataType::ExnNull, wasmparser::RefType::EXNREF, "exn"),
+    (DataType::NoExnNull, wasmparser::RefType::NULLEXNREF, "noexn"),
+    (DataType::I31Null, wasmparser::RefType::I31REF, "i31"),
+    (DataType::StructNull, wasmparser::RefType::STRUCTREF, "struct"),
+    (DataType::ArrayNull, wasmparser::RefType::ARRAYREF, "array"),
+    (DataType::NoneNull, wasmparser::RefType::NULLREF, "none"),
+    (DataType::NoFuncNull, wasmparser::RefType::NULLFUNCREF, "nofunc"),
+    (DataType::NoExternNull, wasmparser::RefType::NULLEXTERNREF, "noextern"),
+];
 
 #[derive(Clone, Debug)]
 enum GTy {
@@ -40,6 +56,7 @@ enum GTy {
     V128,
     FuncRefNull,
     FuncRef,
+    NullRef(usize),
 }
 impl GTy {
     fn dt(&self) -> DataType {
@@ -48,6 +65,7 @@ impl GTy {
             GTy::V128 => DataType::V128,
             GTy::FuncRefNull => DataType::FuncRefNull,
             GTy::FuncRef => DataType::FuncRef,
+            GTy::NullRef(k) => NREFS[*k].0.clone(),
         }
     }
     fn canon(&self) -> String {
@@ -56,6 +74,7 @@ impl GTy {
             GTy::V128 => "v128".into(),
             GTy::FuncRefNull => "funcref".into(),
             GTy::FuncRef => "(ref func)".into(),
+            GTy::NullRef(k) => canon_valtype(wasmparser::ValType::Ref(NREFS[*k].1)),
         }
     }
 }
@@ -141,6 +160,7 @@ fn init_canon(i: &Init, resolve: &dyn Fn(usize) -> String) -> String {
         Init::GlobalGet(h) => format!("global.get:{}", resolve(*h)),
         Init::RefFunc(h) => format!("ref.func:{}", resolve(*h)),
         Init::RefNullFunc => "ref.null:func".into(),
+        Init::RefNull(k) => format!("ref.null:{}", NREFS[*k].2),
     }
 }
 
@@ -154,6 +174,7 @@ fn init_expr(i: &Init, hs: &[Handle]) -> InitExpr {
         Init::GlobalGet(h) => InitInstr::Global(GlobalID(hs[*h].id)),
         Init::RefFunc(h) => InitInstr::RefFunc(FunctionID(hs[*h].id)),
         Init::RefNullFunc => InitInstr::RefNull(wasmparser::RefType::FUNCREF),
+        Init::RefNull(k) => InitInstr::RefNull(NREFS[*k].1),
     }])
 }
 
@@ -185,6 +206,7 @@ fn gen_init(r: &mut Rng, ty: &GTy, hs: &[Handle], gimports: &[(usize, usize)]) -
             let fs: Vec<usize> = (0..hs.len()).filter(|h| hs[*h].sp == Sp::F && !hs[*h].deleted).collect();
             Init::RefFunc(*r.pick(&fs))
         }
+        GTy::NullRef(k) => Init::RefNull(*k),
     }
 }
 
@@ -214,7 +236,7 @@ fn const_toks(e: &wasmparser::ConstExpr) -> Vec<String> {
             Ok(Operator::F32Const { value }) => v.push(format!("f32.const:{}", value.bits())),
             Ok(Operator::F64Const { value }) => v.push(format!("f64.const:{}", value.bits())),
             Ok(Operator::V128Const { value }) => v.push(format!("v128.const:{}", u128::from_le_bytes(*value.bytes()))),
-            Ok(Operator::RefNull { hty }) => v.push(format!("ref.null:{}", match hty { wasmparser::HeapType::Abstract { ty: wasmparser::AbstractHeapType::Func, shared: false } => "func".to_string(), x => format!("{x:?}") })),
+            Ok(Operator::RefNull { hty }) => v.push(format!("ref.null:{}", match hty { wasmparser::HeapType::Abstract { ty, shared: false } => format!("{ty:?}").to_lowercase(), x => format!("{x:?}") })),
             Ok(Operator::RefFunc { function_index }) => v.push(format!("ref.func:{function_index}")),
             Ok(o) => v.push(tok_of(&o)),
             Err(e) => v.push(format!("?{e}")),
@@ -572,6 +594,7 @@ pub fn run(ctx: &mut Ctx) {
                         0 => GTy::V128,
                         1 => GTy::FuncRefNull,
                         2 => GTy::FuncRef,
+                        3 => GTy::NullRef(r.below(NREFS.len())),
                         _ => GTy::Num(r.below(4)),
                     };
                     let init = gen_init(&mut r, &ty, &hs, &gimports);
